@@ -25,6 +25,7 @@ type PropSpec struct {
 	Undecided []string `json:"undecided"`  // clauses this family cannot decide
 	Standins  []Standin `json:"standins"`  // bounded stand-ins (thorough tier)
 	Filter    string   `json:"filter"`     // "locks": count only lock-discipline obligations of the units
+	Exclude   []string `json:"exclude"`    // obligations whose name contains one of these belong to another property
 }
 
 type Standin struct {
@@ -178,6 +179,21 @@ func runCheck(args []string) int {
 	for _, r := range results {
 		if r.res.Script == nil {
 			continue
+		}
+		if len(spec.Exclude) > 0 && r.res.Script != nil {
+			var keep []*Obligation
+			for _, o := range r.res.Script.obls {
+				drop := false
+				for _, ex := range spec.Exclude {
+					if strings.Contains(o.Name, ex) {
+						drop = true
+					}
+				}
+				if !drop {
+					keep = append(keep, o)
+				}
+			}
+			r.res.Script.obls = keep
 		}
 		if spec.Filter != "" && r.res.Script != nil {
 			var keep []*Obligation
